@@ -366,3 +366,144 @@ func checkRunningExtremes(c *core.Ctx, r *core.Report) {
 	}
 	r.Floor("ACCUM", "min/max folds into struct fields", n, 4)
 }
+
+// (14) PERBUCKET — timechart with a split-by limit folds the series that are over the limit into one "other" value
+// per time bucket.  The accumulator for it (TMLimitResult.OtherCValArr) is a field of a result object that lives
+// for the whole conversion, so it has to be replaced by a fresh one for every time bucket: in the loop over the
+// buckets of GroupByBuckets.ConvertToAggregationResult, every read of an element of the accumulator — in the
+// loop itself or in a helper of the package called from it — is reached from the head of the iteration only
+// through a store of the field (made in the loop, or by that helper before its own reads).  Otherwise a bucket's
+// "other" value also carries the values of the buckets converted before it.
+func c04PerBucketAccumulator(c *core.Ctx, r *core.Report) {
+	const pkgBlockRes = "pkg/segment/results/blockresults"
+	fn := c.Fn(pkgBlockRes, "GroupByBuckets.ConvertToAggregationResult")
+	otherF := c.Field(pkgStructs, "TMLimitResult.OtherCValArr")
+	isFieldAddr := func(v ssa.Value) bool {
+		fa, ok := v.(*ssa.FieldAddr)
+		return ok && core.FieldOfAddr(fa) == otherF
+	}
+	elemRead := func(in ssa.Instruction) bool {
+		ld, ok := in.(*ssa.UnOp)
+		if !ok || ld.Op != token.MUL || !isFieldAddr(ld.X) {
+			return false
+		}
+		if refs := ld.Referrers(); refs != nil {
+			for _, u := range *refs {
+				ia, ok := u.(*ssa.IndexAddr)
+				if !ok || ia.Referrers() == nil {
+					continue
+				}
+				for _, eu := range *ia.Referrers() {
+					if el, ok := eu.(*ssa.UnOp); ok && el.Op == token.MUL {
+						return true // the element is loaded (filling the elements of a new accumulator is not a read)
+					}
+				}
+			}
+		}
+		return false
+	}
+	fieldStore := func(in ssa.Instruction) bool {
+		st, ok := in.(*ssa.Store)
+		return ok && isFieldAddr(st.Addr)
+	}
+	// helper summary: does h read elements, and is every such read preceded in h by a store of the field?
+	type hsum struct{ reads, storesFirst bool }
+	sums := map[*ssa.Function]hsum{}
+	summary := func(h *ssa.Function) hsum {
+		if s, ok := sums[h]; ok {
+			return s
+		}
+		var s hsum
+		for _, b := range h.Blocks {
+			for _, in := range b.Instrs {
+				if elemRead(in) {
+					s.reads = true
+				}
+			}
+		}
+		if s.reads {
+			s.storesFirst = true
+			core.WalkForward(h, nil, func(in ssa.Instruction) bool {
+				if fieldStore(in) {
+					return false
+				}
+				if elemRead(in) {
+					s.storesFirst = false
+				}
+				return true
+			})
+		}
+		sums[h] = s
+		return s
+	}
+	kind := func(in ssa.Instruction) string {
+		if fieldStore(in) {
+			return "store"
+		}
+		if elemRead(in) {
+			return "read"
+		}
+		if call, ok := in.(*ssa.Call); ok {
+			if h := call.Call.StaticCallee(); h != nil && h.Blocks != nil && core.FnPkgPath(h) == core.FnPkgPath(fn) {
+				if s := summary(h); s.reads {
+					if s.storesFirst {
+						return "store"
+					}
+					return "read"
+				}
+			}
+		}
+		return ""
+	}
+	nReads := 0
+	allLoops := core.Loops(fn)
+	for _, l := range allLoops {
+		// only outermost loops that contain a read: the iteration is one time bucket
+		nested := false
+		for _, o := range allLoops {
+			if o != l && o.Body[l.Header] {
+				nested = true
+			}
+		}
+		if nested {
+			continue
+		}
+		var reads []ssa.Instruction
+		for b := range l.Body {
+			for _, in := range b.Instrs {
+				if kind(in) == "read" {
+					reads = append(reads, in)
+				} else if call, ok := in.(*ssa.Call); ok {
+					// a helper that reads the accumulator after replacing it itself
+					if h := call.Call.StaticCallee(); h != nil && h.Blocks != nil && core.FnPkgPath(h) == core.FnPkgPath(fn) && summary(h).reads {
+						reads = append(reads, in)
+					}
+				}
+			}
+		}
+		if len(reads) == 0 {
+			continue
+		}
+		nReads += len(reads)
+		var reached ssa.Instruction
+		start := l.Header.Instrs[len(l.Header.Instrs)-1]
+		core.WalkForwardEdges(fn, start, func(in ssa.Instruction) bool {
+			switch kind(in) {
+			case "store":
+				return false
+			case "read":
+				if reached == nil {
+					reached = in
+				}
+			}
+			return true
+		}, func(from, to *ssa.BasicBlock) bool { return l.Body[to] && to != l.Header })
+		construct := shortFn(fn) + ":other-series-accumulator-is-fresh-for-every-time-bucket"
+		if reached != nil {
+			r.Violation("LIVE", construct, c.Pos(reached.Pos()), "an element of TMLimitResult.OtherCValArr is read in an iteration of the bucket loop that has not replaced the accumulator first: the `other` value of a time bucket also carries what the buckets converted before it folded in, so events are counted in buckets that do not contain their timestamps")
+		} else {
+			r.OK("LIVE", construct, c.Pos(reads[0].Pos()), fmt.Sprintf("%d read(s) in the bucket loop, each reached only through a store of a fresh accumulator in the same iteration", len(reads)))
+		}
+	}
+	r.Floor("LIVE", "reads of the timechart other-series accumulator in the bucket loop", nReads, 1)
+}
